@@ -159,7 +159,8 @@ def build(ctx, value, first=None):
                 src.rebuild()
         src["m"]["v"] = value
         src["n"]["deep"]["v"] = value
-        return src, (lambda d: d["m"]["v"] if same(d["m"]["v"], d["n"]["deep"]["v"]) else ["top and nested differ", d["m"]["v"], d["n"]["deep"]["v"]])
+        src["n"]["fresh"] = value  # a new sibling behind the deeper dotted member `n.deep.v`
+        return src, (lambda d: d["m"]["v"] if same(d["m"]["v"], d["n"]["deep"]["v"]) and same(d["m"]["v"], d["n"].get("fresh", "<n.fresh missing>")) else ["top and nested differ", d["m"]["v"], d["n"]["deep"]["v"], d["n"].get("fresh", "<n.fresh missing>")])
     if ctx == "scope_setitem":
         src = nima.parse("let\n  k = 1;\nin\n{ a = k; }\n")
         src.expr.scope["v"] = value
